@@ -213,6 +213,42 @@ def table():
     return t
 
 
+def _descriptor_keys(ctx, tab):
+    """The other half of BLEND_FUNC: descriptor keys (what layer effects / overlays carry). The mode a key names
+    is read off the key itself (enum member name or camelCase bytes), independently of the table; the function
+    found under the key must compute the same values as the one found under the BlendMode of that name."""
+    import re
+    import numpy as np
+    from psd_tools.composite.blend import BLEND_FUNC
+    from psd_tools.constants import BlendMode
+    special = {"ligherColor": "lighter_color", "lighterColor": "lighter_color", "blendDivide": "divide"}
+    g = np.linspace(0.0, 1.0, 17, dtype=np.float32)
+    cb, cs = np.meshgrid(g, g)
+    cb3 = np.stack([cb, cs, 1 - cb], axis=-1).astype(np.float32)
+    cs3 = np.stack([cs, 1 - cb * cs, cb], axis=-1).astype(np.float32)
+    for k, f in BLEND_FUNC.items():
+        if isinstance(k, BlendMode):
+            continue
+        raw = k.name if hasattr(k, "name") else bytes(k).decode("ascii", "replace")
+        name = special.get(raw) or re.sub(r"(?<!^)(?=[A-Z])", "_", raw).lower()
+        ref = tab.get(name)
+        ctx.count(("desc-key", raw))
+        ctx.hist("descriptor_keys", name if ref is not None else "unknown:" + raw)
+        if ref is None:
+            ctx.disagree("descriptor key of BLEND_FUNC names no modelled mode", {"key": raw})
+            continue
+        try:
+            a, b = np.asarray(f(cb3.copy(), cs3.copy())), np.asarray(ref(cb3.copy(), cs3.copy()))
+            bad = not np.allclose(a, b, atol=1e-6, equal_nan=True)
+        except Exception as e:  # noqa
+            a, b, bad = type(e).__name__, None, True
+        if bad:
+            ctx.fail(f"C12/table/descriptor-key/{raw}-does-not-compute-{name}",
+                     "BLEND_FUNC maps a descriptor key to a function that does not compute the mode the key names",
+                     {"key": raw, "function_found": getattr(f, "__name__", repr(f)), "mode": name},
+                     getattr(f, "__name__", repr(f)), name)
+
+
 class Stats:
     def __init__(self):
         self.max_corr = {}
@@ -644,7 +680,7 @@ def lattice_exhaustive(ctx, st, tab, block):
 # the check
 # ------------------------------------------------------------------------------------------
 def run(ctx: core.Run):
-    gen = extract_c12.gen_blend(ctx)
+    gen = ctx.regenerate(extract_c12.gen_blend)
     ctx.prove(["PsdVerif.Props.C12"])
     ctx.trusted_base += [
         "Lean 4.33 kernel; axioms allowed: propext, Classical.choice, Quot.sound (audited per theorem)",
@@ -668,6 +704,7 @@ def run(ctx: core.Run):
     if missing:
         ctx.disagree("functions not reachable through a BlendMode key of BLEND_FUNC: %s" % missing, None)
         return
+    _descriptor_keys(ctx, tab)
     drv = ctx.driver()
     rng = ctx.rng
     st = Stats()
